@@ -30,6 +30,10 @@ type c08Conn struct {
 	// behind its requests and then reads NOTHING until well after Stop was
 	// called: the read loop has ended, handlers are parked in Write.
 	Stall bool `json:"stall,omitempty"`
+	// PanicOne: together with the in-flight requests one more request is sent whose handler panics at once
+	// (recovered by the server) while the others are still running: a recovered panic in one handler must not
+	// end the connection under the feet of the others
+	PanicOne bool `json:"panic_one,omitempty"`
 }
 
 type c08Case struct {
@@ -107,6 +111,8 @@ func c08Exec(c c08Case, st *lab.Stats) *lab.Fail {
 				if tag < len(c.Conns) && c.Conns[tag].Ending == "panic-unbind" {
 					panic("c08: unbind handler panics") // the deferred exit event still fires first
 				}
+			case n == 91:
+				panic("c08: one handler of the connection panics while others are running")
 			case n >= 10 && n < 90 && inflight == "blocked":
 				g.wait(30 * time.Second)
 				_ = respondOK(w, r)
@@ -218,6 +224,9 @@ func c08Exec(c c08Case, st *lab.Stats) *lab.Fail {
 					inflightTotal++
 				}
 			}
+			if cs.PanicOne {
+				buf = append(buf, simpleReq("search", base+91).Bytes()...)
+			}
 			if cs.Pipelined && c.Mode == "normal" {
 				buf = append(buf, endingBytes(cs.Ending, base)...)
 			}
@@ -252,6 +261,9 @@ func c08Exec(c c08Case, st *lab.Stats) *lab.Fail {
 	nt := false
 	for _, cs := range c.Conns {
 		st.Class("ending="+endingName(c.Mode, cs.Ending), "inflight="+cs.InFlight, "transport="+cs.Transport)
+		if cs.PanicOne && cs.InFlight != "none" {
+			st.Class("one-handler-panics-while-others-run")
+		}
 		if cs.InFlight != "none" {
 			nt = true
 		}
@@ -521,11 +533,15 @@ func endingName(mode, ending string) string {
 func TestC08(t *testing.T) {
 	lab.Prop[c08Case]{
 		ID: "C08", Part: "endings",
-		Rule: "rapid scenarios: 1..12 (occasionally 32) connections over plain/TLS/StartTLS, each with 0..4 handlers in flight (blocked on a gate that opens 0..60 ms AFTER the ending was triggered, or writing 3 MB to a client that does not read), ending by client FIN, client RST, Unbind, malformed frame, unsupported operation, mid-frame disconnect, panicking unbind handler (recovered), server read timeout, server write timeout (handlers' responses fail, then Unbind), or server Stop followed by more requests (or, having sent an Unbind, by a client that reads nothing for a while); the in-flight requests and the ending may leave in ONE write (handlers only just dispatched when the connection ends); oracle = exactly one OnClose per connection with the ConnectionID its handlers saw, stamped after every handler exit of that connection; for server-initiated endings the client's EOF/RST is also stamped after every handler exit; afterwards no connection goroutine and no socket descriptor remains (garbage collector disabled during the scenario so that a finalizer cannot hide a forgotten close); non-trivial = >= 1 handler in flight when the ending happened; distinct by hash",
+		Rule: "rapid scenarios: 1..12 (occasionally 32) connections over plain/TLS/StartTLS, each with 0..4 handlers in flight (blocked on a gate that opens 0..60 ms - one Stop scenario in four: 1.2..4.5 s - AFTER the ending was triggered; one connection in four also gets a request whose handler panics at once (recovered) while the others are still running; or writing 3 MB to a client that does not read), ending by client FIN, client RST, Unbind, malformed frame, unsupported operation, mid-frame disconnect, panicking unbind handler (recovered), server read timeout, server write timeout (handlers' responses fail, then Unbind), or server Stop followed by more requests (or, having sent an Unbind, by a client that reads nothing for a while); the in-flight requests and the ending may leave in ONE write (handlers only just dispatched when the connection ends); oracle = exactly one OnClose per connection with the ConnectionID its handlers saw, stamped after every handler exit of that connection; for server-initiated endings the client's EOF/RST is also stamped after every handler exit; afterwards no connection goroutine and no socket descriptor remains (garbage collector disabled during the scenario so that a finalizer cannot hide a forgotten close); non-trivial = >= 1 handler in flight when the ending happened; distinct by hash",
 		Gen: func(t *rapid.T) c08Case {
 			c := c08Case{
 				Mode:        rapid.SampledFrom([]string{"normal", "normal", "normal", "normal", "normal", "readtimeout", "writetimeout", "stop"}).Draw(t, "mode"),
 				GateDelayMs: rapid.SampledFrom([]int{0, 2, 10, 30, 60}).Draw(t, "gatedelay"),
+			}
+			if c.Mode == "stop" && rapid.IntRange(0, 3).Draw(t, "longgate") == 0 {
+				// handlers that are busy with something else than the connection for seconds after Stop was called
+				c.GateDelayMs = rapid.SampledFrom([]int{1200, 2600, 4500}).Draw(t, "longgatems")
 			}
 			n := rapid.IntRange(1, 12).Draw(t, "nconns")
 			if rapid.IntRange(0, 19).Draw(t, "many") == 0 {
@@ -540,6 +556,7 @@ func TestC08(t *testing.T) {
 				}
 				cs.Pipelined = rapid.IntRange(0, 2).Draw(t, "pipelined") == 0
 				cs.Stall = c.Mode == "stop" && cs.InFlight == "writing" && rapid.Bool().Draw(t, "stall")
+				cs.PanicOne = cs.InFlight != "none" && rapid.IntRange(0, 3).Draw(t, "panicone") == 0
 				if (c.Mode == "readtimeout" || c.Mode == "writetimeout") && cs.InFlight == "writing" {
 					cs.InFlight = "blocked"
 				}
